@@ -283,6 +283,20 @@ ORACLE_WHAT = {
 }
 
 
+def fit_entries(s):
+    """the entry points a sentence is meant for (C08 is about acceptance: a DDL sentence is not fed to ParseExpr)"""
+    w = s.lstrip().split(None, 1)[0].upper() if s.strip() else b""
+    if w in (b"CREATE", b"ALTER", b"DROP", b"RENAME", b"GRANT", b"REVOKE", b"ANALYZE"):
+        return ("ParseStatement", "ParseDDL")
+    if w in (b"INSERT", b"UPDATE", b"DELETE"):
+        return ("ParseStatement", "ParseDML")
+    if w in (b"SELECT", b"WITH", b"FROM") or s.lstrip().startswith((b"(SELECT", b"@{")):
+        return ("ParseStatement", "ParseQuery")
+    if w == b"CALL":
+        return ("ParseStatement",)
+    return ("ParseExpr",)
+
+
 def valid_cases(rnd, q, n_sent):
     cases = gens.parser_cases(rnd, 1500 if q else 30000, 0, 400 if q else 8000)
     cases += gens.sentence_cases(rnd, n_sent)
@@ -342,8 +356,8 @@ def sampled(res, st, std_coq, extra_vo=()):
     if pid != "C08" and pid != "C11":
         for e in ("ParseExpr", "ParseStatement", "ParseQuery"):
             cases += [(e, s) for s in gens.NEAR_MISS]
-    for e in ("ParseStatement", "ParseExpr", "ParseQuery", "ParseDDL", "ParseType"):
-        cases += [(e, s) for s in gens.regression(pid)]
+    for s in gens.regression(pid):
+        cases += [(e, s) for e in (fit_entries(s) if pid == "C08" else ("ParseStatement", "ParseExpr", "ParseQuery", "ParseDDL", "ParseType"))]
     report_oracle(res, pid, cases, ORACLE_WHAT[pid])
     res.add_cases(len(cases), len(set(cases)), [gens.case_lines(cases[:1]).strip()[:200], gens.case_lines(cases[-1:]).strip()[:200]])
     if have and pid == "C16":
